@@ -9,16 +9,30 @@ RUN_MODULE = "RunC13"
 TRANSLATOR_UNITS = []
 SHARD = 700
 F4 = "F4-asyncfifo-depth1-elaborate"
-F_SHORT = "C13-wreset-too-short"                 # write-domain reset shorter than the flush pattern leaves stale pointers
-F_BUFREG = "C13-buffered-wreset-keeps-entry"     # AsyncFIFOBuffered output register survives a write-domain reset
-F_RRST = "C13-buffered-rreset-drops-entry"       # AsyncFIFOBuffered loses entries on a read-domain reset
+# The text of C13 quantifies over clock interleavings and strobe/data sequences only, not over the domains' resets.
+# On a history containing a reset the model-vs-implementation comparison of every output stays a verdict, but a
+# divergence between the strict specification monitor and that (common) trace is an OBSERVATION, never a verdict.
+# Observation classes (semantics under which the monitor accepts the run; witnesses: the *_refuted theorems of C13.v):
+O_SHORT = "wreset-too-short"                 # write-domain reset shorter than the flush pattern leaves stale pointers
+O_BUFREG = "buffered-wreset-keeps-entry"     # AsyncFIFOBuffered output stage is not cleared by a write-domain reset
+O_RRST = "buffered-rreset-drops-entry"       # AsyncFIFOBuffered loses entries on a read-domain reset
+O_OTHER = "other"
+OBS_TEXT = {
+    O_SHORT: "a write-domain reset episode shorter than 1 write edge + 3 read edges + 2 write edges leaves stale "
+             "pointers (r_level above depth / garbage readable); longer episodes are proved to recover",
+    O_BUFREG: "AsyncFIFOBuffered keeps its output-stage entry (r_rdy/r_data, registered r_level) across a write-domain reset",
+    O_RRST: "AsyncFIFOBuffered loses the entry in its output stage on a read-domain reset",
+    O_OTHER: "strict monitor and common trace diverge after a reset in a way none of the three classes explains",
+}
 RULE = ("real AsyncFIFO/AsyncFIFOBuffered, domains 'read'/'write' declared by hand, clocks driven from a testbench by "
         "ctx.set(Cat(clk_w, clk_r), bits) through event words over {W,R,WR} (both clocks low between events), inputs "
         "(w_en, w_data, r_en, write-domain rst, read-domain rst) set before each edge, all six outputs read after every "
         "event and compared with the Coq model trace (vm_compute) AND with a Python deque monitor (w_rdy while depth "
         "entries held, r_rdy -> r_data = oldest unread, levels in 0..depth, drain/visibility bounds of the theorems after "
-        "writing stops, write-reset empties the FIFO, read-reset loses nothing); the monitor's verdict is the last integer "
-        "of the observation and the model side says 0. Streams: (1) construct+elaborate for both classes, depths -3..40 "
+        "writing stops); the monitor's verdict on the reset-free part of a history (all of it, or the prefix before the "
+        "first reset event) is the last integer of the observation and the model side says 0; after a reset the monitor "
+        "(write-reset empties the FIFO, read-reset loses nothing) only produces OBSERVATIONS (coverage key "
+        "reset_observations, NOTE lines), because C13 does not quantify over resets. Streams: (1) construct+elaborate for both classes, depths -3..40 "
         "and 63..4097 around powers of two, exact_depth both ways, width 4 and width -1 (TypeError) (spec answer "
         "'elaborates' and faithful answer; exception CLASS compared); (2) Gray encode/decode as elaborated, all values of "
         "widths 0..7 + random wide; (3) ALL event words of bounded length: AsyncFIFO(2)/Buffered(3) width 3 over {W,R,WR} "
@@ -37,7 +51,7 @@ MODELLED = ("AsyncFIFO.elaborate / AsyncFIFOBuffered.elaborate register-transfer
 ASSUMPTIONS = ["no metastability: a synchroniser flop samples the old value of its input at an edge (as the simulator does); "
                "the Gray single-bit-change theorem is what makes this sound in hardware",
                "write-domain reset: safety proved after episodes containing 1 write edge, then 3 read edges, then 2 write "
-               "edges (suff_reset); shorter episodes are refuted (finding " + F_SHORT + ")"]
+               "edges (suff_reset); shorter episodes are refuted (observation class " + O_SHORT + ", not a verdict)"]
 
 EXC = {"ValueError": 1, "TypeError": 2, "IndexError": 3}
 
@@ -85,8 +99,8 @@ def monitor(cls, depth, width, events, obs0, obs, lenient=(), drop_plan=None):
       8 not drained held+2 (buffered held+3) read edges after writing stopped with r_en kept high     writing stopped
     Strict semantics: a write-domain reset episode empties the FIFO (whatever its length), a read-domain reset loses
     nothing.  lenient = semantics of the recorded findings: 'short' (after an episode that does not contain the flush
-    pattern nothing is specified any more), 'bufreg' (the buffered output register keeps its entry across a write
-    reset), 'rrst' (the k-th read-domain reset edge of the buffered FIFO drops drop_plan[k] in 0..2 entries: the one in
+    pattern nothing is specified any more), 'bufreg' (the buffered output stage is not cleared by a write reset: r_rdy/r_data keep their entry and
+    the registered r_level keeps its mid-reset value until the next read edge), 'rrst' (the k-th read-domain reset edge of the buffered FIFO drops drop_plan[k] in 0..2 entries: the one in
     the output register and the one the inner FIFO hands over at that edge; -1 is returned when the plan is exhausted)."""
     if depth == 0:
         for i, o in enumerate([obs0] + list(obs)):
@@ -95,7 +109,7 @@ def monitor(cls, depth, width, events, obs0, obs, lenient=(), drop_plan=None):
         return 0
     K = 2 if cls == 0 else 3
     q = collections.deque()
-    in_ep, s, tainted, n_rr = False, 0, False, 0
+    in_ep, s, tainted, n_rr, stale_rl = False, 0, False, 0, False
     quiet_r, quiet_allren, held_stop = 0, True, 0
     pre = obs0
 
@@ -104,7 +118,7 @@ def monitor(cls, depth, width, events, obs0, obs, lenient=(), drop_plan=None):
             return 4
         if pre["r_rdy"] and (not q or q[0] != pre["r_data"]):
             return 5
-        if not (0 <= pre["w_level"] <= depth and 0 <= pre["r_level"] <= depth):
+        if not (0 <= pre["w_level"] <= depth and (stale_rl or 0 <= pre["r_level"] <= depth)):
             return 6
         if quiet_r >= K:
             if bool(pre["r_rdy"]) != (len(q) > 0):
@@ -128,9 +142,11 @@ def monitor(cls, depth, width, events, obs0, obs, lenient=(), drop_plan=None):
             in_ep = False
             if s < 6 and "short" in lenient:
                 tainted = True
-            if cls == 1 and "bufreg" in lenient and pre["r_rdy"]:
-                q.append(pre["r_data"])
-                held_stop = 1
+            if cls == 1 and "bufreg" in lenient:
+                stale_rl = True             # the registered r_level keeps its mid-reset value until the next read edge
+                if pre["r_rdy"]:
+                    q.append(pre["r_data"])
+                    held_stop = 1
         if tainted:
             pre = obs[idx]
             continue
@@ -147,6 +163,8 @@ def monitor(cls, depth, width, events, obs0, obs, lenient=(), drop_plan=None):
             n_rr += 1
         if ev & 1 and wen and pre["w_rdy"]:
             q.append(wd % (1 << width))
+        if ev & 2:
+            stale_rl = False
         if wen or (rrst and cls == 1):
             quiet_r, quiet_allren, held_stop = 0, True, len(q)
         else:
@@ -422,7 +440,9 @@ def run_impl(c):
     sim.add_testbench(tb)
     sim.run()
     dicts = [dict(zip(NAMES, o)) for o in out]
-    verdict = monitor(c["cls"], depth, c["width"], events, dicts[0], dicts[1:])
+    # verdict only on the reset-free part: the whole history, or the prefix before the first reset event
+    k0 = _first_reset(events)
+    verdict = monitor(c["cls"], depth, c["width"], events[:k0], dicts[0], dicts[1:1 + k0])
     return [1, depth] + [pack(o) for o in out[1:]] + [verdict]
 
 
@@ -442,28 +462,42 @@ def _obs0(c, depth):
     return dict(w_rdy=int(depth > 0), w_level=0, r_rdy=0, r_data=0, r_level=0, r_rst=0)
 
 
+def _first_reset(events):
+    for i, e in enumerate(events):
+        if e[4] or e[5]:
+            return i
+    return len(events)
+
+
 def known_finding(c, obs, model):
-    """A mismatch is a recorded finding only if the implementation behaved exactly as the (faithful) model predicts and
-    the specification-level difference is reproduced by the finding's semantics:
-    F4: the specification answer 'elaborates' for AsyncFIFO constructed depth 1 / AsyncFIFOBuffered constructed depth 2
-        (requested depth >= 0) against IndexError in elaborate().
-    reset findings: every output of every event equals the model's trace, only the specification monitor's verdict
-        differs (strict verdict != 0), and re-running the monitor over the observed run under the finding's lenient
-        semantics gives verdict 0."""
+    """F4 only: the specification answer 'elaborates' for AsyncFIFO constructed depth 1 / AsyncFIFOBuffered constructed
+    depth 2 (requested depth >= 0) against IndexError in elaborate()."""
     obs, model = list(obs), list(model)
-    if c["k"] == "elab":
-        if c["depth"] < 0 or obs != [-1, EXC["IndexError"]]:
-            return None
-        if (c["cls"] == 0 and model == [1, 1]) or (c["cls"] == 1 and model == [1, 2]):
-            return F4
+    if c["k"] != "elab" or c["depth"] < 0 or obs != [-1, EXC["IndexError"]]:
         return None
-    if c["k"] != "trace" or len(obs) < 3 or obs[0] != 1 or obs[:-1] != model[:-1] or model[-1] != 0 or obs[-1] == 0:
+    if (c["cls"] == 0 and model == [1, 1]) or (c["cls"] == 1 and model == [1, 2]):
+        return F4
+    return None
+
+
+def reset_observation(c):
+    """For a history with resets: (class, strict verdict) when the strict monitor over the WHOLE observed run fails,
+    else None.  The class is the semantics under which the monitor accepts the run."""
+    if c["k"] != "trace":
         return None
     events = [unword(x) for x in c["ev"]]
+    if _first_reset(events) == len(events):
+        return None
+    obs = run_impl(c)
+    if len(obs) < 3 or obs[0] != 1:
+        return None
+    depth = obs[1]
+    dicts = [unpack(p) for p in obs[2:-1]]
+    strict = monitor(c["cls"], depth, c["width"], events, _obs0(c, depth), dicts)
+    if strict == 0:
+        return None
     has_w = any(e[4] for e in events)
     has_r = any(e[5] for e in events)
-    dicts = [unpack(p) for p in obs[2:-1]]
-    depth = obs[1]
 
     def lenient(flags):
         return monitor(c["cls"], depth, c["width"], events, _obs0(c, depth), dicts, lenient=flags) == 0
@@ -474,15 +508,21 @@ def known_finding(c, obs, model):
             return any(search(plan + [d]) for d in (0, 1, 2))
         return v == 0
     if has_r and not has_w and c["cls"] == 1 and search([]):
-        return F_RRST
+        return O_RRST, strict
     if has_w and not has_r:
         if c["cls"] == 1 and lenient(("bufreg",)):
-            return F_BUFREG
+            return O_BUFREG, strict
         if lenient(("short",)):
-            return F_SHORT
+            return O_SHORT, strict
         if c["cls"] == 1 and lenient(("short", "bufreg")):
-            return F_SHORT
-    return None
+            return O_SHORT, strict
+    return O_OTHER, strict
+
+
+def _reset_obs_worker(chunk):
+    from common import setup_env
+    setup_env()
+    return [reset_observation(c) for c in chunk]
 
 
 def shrink(c, obs, model):
@@ -504,8 +544,9 @@ def shrink(c, obs, model):
 
 
 def extra(tier, seed, findings):
-    """Measured reach of the random walks (no verdict here: the walks are compared case by case above)."""
-    walks = [c for c in gen_cases(tier, seed) if c["k"] == "trace" and not c["g"].startswith(("words", "err"))]
+    """Measured reach of the random walks, and the reset OBSERVATIONS (never a verdict, never a violation payload)."""
+    allc = gen_cases(tier, seed)
+    walks = [c for c in allc if c["k"] == "trace" and not c["g"].startswith(("words", "err"))]
     rng = random.Random(seed + 1)
     sample = rng.sample(walks, min(len(walks), 80))
     st = collections.Counter()
@@ -535,15 +576,34 @@ def extra(tier, seed, findings):
         st["accepted_reads"] += rd
         st["walks_pointer_wraps(>= 2*depth entries passed)"] += int(rd >= 2 * depth)
         st["walks_with_drain_tail"] += int(c.get("tail", False))
-        st["monitor_failures(strict)"] += int(obs[-1] != 0)
-    return [], {"walk_reach_sample": dict(st)}
+        st["monitor_failures(strict, reset-free part)"] += int(obs[-1] != 0)
+    # reset observations over every generated history that contains a reset
+    from concurrent.futures import ProcessPoolExecutor
+    import common as C
+    rc = [c for c in allc if c["k"] == "trace" and _first_reset([unword(x) for x in c["ev"]]) < len(c["ev"])]
+    chunks = [rc[i:i + 40] for i in range(0, len(rc), 40)]
+    res = []
+    with ProcessPoolExecutor(C.NCPU) as ex:
+        for r in ex.map(_reset_obs_worker, chunks):
+            res += r
+    ro = {"histories_with_reset": len(rc), "strict_monitor_agrees": sum(1 for r in res if r is None), "classes": {}}
+    for cls_name in (O_SHORT, O_BUFREG, O_RRST, O_OTHER):
+        hits = [(c, r[1]) for c, r in zip(rc, res) if r is not None and r[0] == cls_name]
+        if not hits:
+            continue
+        c, v = min(hits, key=lambda h: (len(h[0]["ev"]), h[0]["ev"]))
+        ro["classes"][cls_name] = {"count": len(hits), "what": OBS_TEXT[cls_name],
+                                   "minimal_example": {"case": {k: c[k] for k in ("cls", "depth", "exact", "width", "ev")},
+                                                       "strict_monitor_verdict": v}}
+        print(f"NOTE: property=C13 observation (not a verdict): {len(hits)} reset histories: {OBS_TEXT[cls_name]}")
+    return [], {"walk_reach_sample": dict(st), "reset_observations": ro}
 
 
 def explain(c):
     if c["k"] == "trace":
         return ("events: code(1=W,2=R,3=WR) + 4*(w_en + 2*r_en + 4*write-rst + 8*read-rst) + 64*w_data; answer "
                 "[1, depth, obs.., verdict]: obs = w_rdy + 2*r_rdy + 4*r_rst + 8*(w_level + 64*(r_level + 64*r_data)) "
-                "after each event; verdict = specification monitor: 0 ok, else 10*(index of the event before which the "
+                "after each event; verdict = specification monitor on the reset-free part of the history: 0 ok, else 10*(index of the event before which the "
                 "check failed + 1) + code (4 w_rdy while full, 5 r_rdy/r_data not oldest unread, 6 level out of range, "
                 "7 held entries not visible in time, 8 not drained in time); [2, depth, c] = elaboration raises class c; "
                 "[0, c] = constructor raises class c (1 ValueError, 2 TypeError, 3 IndexError)")
